@@ -280,6 +280,18 @@ func (w *World) dispose(st atree.Storable) {
 }
 
 func (w *World) disposeSlab(id atree.SlabID) {
+	if w.St.RetrieveIfLoaded(id) == nil {
+		// not loaded: a caller that knows (from its static types) that the reference is a large scalar value removes the slab
+		// without reading it first; the harness learns the kind from the raw register, without touching the storage
+		if raw, ok := w.Ledger.Regs[id]; ok {
+			if ds, err := atree.DecodeSlab(id, raw, decMode(), testutils.DecodeStorable, decodeTypeInfo); err == nil {
+				if _, isStorable := ds.(*atree.StorableSlab); isStorable {
+					must(w.St.Remove(id))
+					return
+				}
+			}
+		}
+	}
 	s, found, err := w.St.Retrieve(id)
 	must(err)
 	if !found {
